@@ -28,6 +28,9 @@ const (
 
 var c02Hosts = []string{c02Dom, c02Sub, c02Other}
 
+// c02HostsThorough adds a name that merely ends in the characters of h.test.
+var c02HostsThorough = []string{c02Dom, c02Sub, c02Other, "nh.test"}
+
 // Question types: A, AAAA, HTTPS are the "address-like" types, TXT is not.
 var c02QTypes = []uint16{dns.TypeA, dns.TypeAAAA, dns.TypeHTTPS, dns.TypeTXT}
 
